@@ -125,3 +125,28 @@ harness!(c19_normalize_angle, unwind = 2, {
     let nearest = turns.round();
     assert!((turns - nearest).abs() <= 1e-4, "normalized angle is congruent to the input mod 2pi");
 });
+
+// vertices far from the origin with tiny sizes: the sums centre +- half-size need more than f32 precision
+// (xc = 8192 + k/4, half sizes multiples of 2^-12), exact in f64 - the polygon must be generated in f64
+harness!(c19_vertices_far_small, unwind = 6, {
+    let xc = 8192.0 + any_grid(-16, 16, 2);
+    let yc = -4096.0 + any_grid(-16, 16, 2);
+    let m: i32 = kani::any();
+    kani::assume(m >= 1 && m <= 8);
+    let n: i32 = kani::any();
+    kani::assume(n >= 1 && n <= 4);
+    let h = (m as f32) / 2048.0;
+    let aspect = n as f32;
+    let b = Universal2DBox::new(xc, yc, None, aspect, h);
+    let p = b.get_vertices();
+    let hw = (aspect as f64) * (h as f64) / 2.0;
+    let hh = (h as f64) / 2.0;
+    let (x, y) = (xc as f64, yc as f64);
+    let pts: Vec<_> = p.exterior().coords().cloned().collect();
+    assert!(pts.len() == 5);
+    assert!(pts[0].x == x - hw && pts[0].y == y + hh, "vertex 0 exact in f64");
+    assert!(pts[1].x == x + hw && pts[1].y == y + hh, "vertex 1 exact in f64");
+    assert!(pts[2].x == x + hw && pts[2].y == y - hh, "vertex 2 exact in f64");
+    assert!(pts[3].x == x - hw && pts[3].y == y - hh, "vertex 3 exact in f64");
+    assert!(pts[1].x - pts[0].x == 2.0 * hw && pts[0].y - pts[3].y == 2.0 * hh, "side lengths exact");
+});
